@@ -83,6 +83,19 @@ pub fn run(c: &[S]) -> Option<S> {
             }));
             crate::ops::run(a[4].as_list())
         }
+        // (nested_re outer inner A B trigger-bits SIDE): binary_op_nested whose trigger closure itself runs a quantification (on SIDE)
+        // before answering from the bit vector: re-entrant use of the nested apply on one thread
+        "nested_re" => {
+            let (to, ti) = (table2(d_table(&a[0], 9)), table2(d_table(&a[1], 9)));
+            let (x, y, side) = (d_bdd(&a[2]), d_bdd(&a[3]), d_bdd(&a[5]));
+            let trig = d_bits(&a[4], 'v');
+            let trigger = |v: BddVariable| {
+                let _probe = side.exists(&[v]);
+                let _probe2 = side.var_for_all(v);
+                trig.get(v.to_index()).copied().unwrap_or(false)
+            };
+            e_bdd(&Bdd::binary_op_nested(&x, &y, trigger, to, ti))
+        }
         "val_hist" => {
             let st = a[0].as_list();
             let mut v = match st[0].as_atom() {
